@@ -84,8 +84,10 @@ def corr_H(run, configs, betas, poisons):
     """configs: [(L, P)], betas: [(label, complex)], poisons: floats"""
     import spherical
     b = Batch(run, "H-recursion")
-    for (L, P) in configs:
-        w = spherical.Wigner(L, mp_max=P)
+    for ic, (L, P) in enumerate(configs):
+        # the calculator's ell_min must not change what the recursion computes (all rows from 0 are filled and used by the Horner routes)
+        emin = [0, min(2, L), L, min(1, L)][ic % 4]
+        w = spherical.Wigner(L, emin, mp_max=P)
         for lab, z in betas:
             for poison in poisons:
                 ws = w.new_workspace()
@@ -93,7 +95,7 @@ def corr_H(run, configs, betas, poisons):
                 Hw, Hv, Hx, _, _, _ = w._split_workspace(ws)
                 w.H(complex(z), Hw, Hv, Hx)
                 b.add(f"H {L} {w.mp_max} {fbits(z.real)} {fbits(z.imag)} {fbits(poison)}",
-                      arr_bits(Hw) + arr_bits(Hv) + arr_bits(Hx), {"L": L, "P": P, "expibeta": [z.real, z.imag], "poison": repr(poison), "stratum": lab}, lab)
+                      arr_bits(Hw) + arr_bits(Hv) + arr_bits(Hx), {"L": L, "P": P, "ell_min": emin, "expibeta": [z.real, z.imag], "poison": repr(poison), "stratum": lab}, lab)
     return b.flush()
 
 
